@@ -1887,6 +1887,12 @@ func (p *Parser) parseMapOrSet() ast.Node {
 				}
 			}
 		}
+		// The last item may be followed by a line break, as in a list or map
+		for p.peekTokenIs(token.NEWLINE) {
+			if err := p.nextToken(); err != nil {
+				return nil
+			}
+		}
 		if !p.expectPeek("set", token.RBRACE) {
 			return nil
 		}
